@@ -1,5 +1,6 @@
 import SarpyModel.Drivers.Slice
 import SarpyModel.Drivers.Scatter
+import SarpyModel.Drivers.Poly
 namespace Sarpy.Drivers
 
 def step (line : String) : String :=
@@ -7,6 +8,7 @@ def step (line : String) : String :=
   match toks with
   | "slice" :: rest => (sliceStep rest).getD "bad-op"
   | "scatter" :: rest => (scatterStep rest).getD "bad-op"
+  | "poly" :: rest => (polyStep rest).getD "bad-op"
   | _ => "bad-op"
 
 partial def loop (h : IO.FS.Stream) : IO Unit := do
